@@ -102,6 +102,7 @@ Outcome body(const Case &c) {
   auto get_fh = [&](int f, errcode_t *err) -> ext2_file_t { if (!H.fh[f]) { *err = ext2fs_file_open(H.fs, ino[f], EXT2_FILE_WRITE, &H.fh[f]); if (*err) H.fh[f] = nullptr; } return H.fh[f]; };
   auto close_fh = [&](int f) -> errcode_t { errcode_t r = 0; if (H.fh[f]) { r = ext2fs_file_close(H.fh[f]); H.fh[f] = nullptr; } return r; };
   auto buffered_unknown = [&](int f) { uint64_t e = M[f].last_write_end; if (e) { uint64_t b = (e - 1) / bs * bs; M[f].fill(b, b + bs, -1); } };
+  std::set<std::string> errops;
   int mutations[3] = {0, 0, 0}; bool nontrivial = false; bool reopened_after_punch = false, punched = false; int errors = 0;
   int step = 0;
   auto check_read = [&](int f, uint64_t off, uint64_t len, const std::string &at) -> Outcome {
@@ -111,7 +112,7 @@ Outcome body(const Case &c) {
     if (err) return Outcome::fail("llseek", "error " + str(err) + at);
     std::vector<unsigned char> buf(len + 1, 0x5A); unsigned got = 0;
     err = ext2fs_file_read(fh, buf.data(), (unsigned)len, &got);
-    if (err) { if (legal_error(err) && errors > 0) { count("err:read-after-error"); close_fh(f); buffered_unknown(f); return Outcome(); } return Outcome::fail(std::string("read-error:") + kind, "error " + str(err) + at); }
+    if (err) { if (legal_error(err)) { /* a buffered write whose mapping could not be completed (e.g. ENOSPC converting an unwritten extent) is reported by the next call that flushes it */ errors++; errops.insert("read-flush"); count("err:read-flush:" + str(err)); close_fh(f); buffered_unknown(f); return Outcome(); } return Outcome::fail(std::string("read-error:") + kind, "error " + str(err) + at); }
     uint64_t want = off >= M[f].size ? 0 : std::min<uint64_t>(len, M[f].size - off);
     if (got != want) return Outcome::fail(std::string("read-length:") + kind, "got " + str(got) + " expected " + str(want) + " size " + str(M[f].size) + at);
     for (uint64_t i = 0; i < got; i++) { short mv = M[f].get(off + i); if (mv >= 0 && buf[i] != mv) return Outcome::fail(std::string("read-data:") + kind, "file f" + str(f) + " byte " + str(off + i) + " (blk " + str((off + i) / bs) + "+" + str((off + i) % bs) + ") is " + str(buf[i]) + " model " + str(mv) + at); }
@@ -135,7 +136,7 @@ Outcome body(const Case &c) {
       unsigned written = 0; err = ext2fs_file_write(fh, buf.data(), (unsigned)len, &written);
       if (err) {
         if (!legal_error(err)) return Outcome::fail(std::string("write-error:") + kind, "unexpected error " + str(err) + at);
-        errors++; count("err:write:" + str(err)); M[f].fill(off, off + len, -1); buffered_unknown(f);
+        errors++; errops.insert("write"); count("err:write:" + str(err)); M[f].fill(off, off + len, -1); buffered_unknown(f);
         __u64 sz = 0; ext2fs_file_get_lsize(fh, &sz);
         if (sz < M[f].size || sz > std::max<uint64_t>(M[f].size, off + len)) return Outcome::fail(std::string("size-after-error:") + kind, "size " + str(sz) + at);
         if (sz > M[f].size) { M[f].fill(M[f].size, sz, -1); M[f].size = sz; }
@@ -156,7 +157,7 @@ Outcome body(const Case &c) {
       ext2_file_t fh = get_fh(f, &err); if (!fh) return Outcome::fail("open-file", "error " + str(err) + at);
       err = ext2fs_file_set_size2(fh, off);
       if (err && is_inline) return Outcome::fail("set_size:inline", "ext2fs_file_set_size2 on an inline-data file returned " + str(err) + at);
-      if (err) { if (!legal_error(err)) return Outcome::fail(std::string("set_size-error:") + kind, "unexpected error " + str(err) + at); errors++; count("err:set_size:" + str(err)); __u64 sz = 0; ext2fs_file_get_lsize(fh, &sz); if (sz != M[f].size && sz != off) return Outcome::fail("size-after-error", "size " + str(sz) + at); if (sz < M[f].size) M[f].truncate(sz); else M[f].size = sz; break; }
+      if (err) { if (!legal_error(err)) return Outcome::fail(std::string("set_size-error:") + kind, "unexpected error " + str(err) + at); errors++; errops.insert("set_size"); count("err:set_size:" + str(err)); __u64 sz = 0; ext2fs_file_get_lsize(fh, &sz); if (sz != M[f].size && sz != off) return Outcome::fail("size-after-error", "size " + str(sz) + at); if (sz < M[f].size) M[f].truncate(sz); else M[f].size = sz; break; }
       if (off < M[f].size) M[f].truncate(off); else M[f].size = off;
       mutations[f]++; punched = true; count("op:set_size"); break; }
     case 3: {  // punch blocks [blk, blk+n-1]
@@ -166,7 +167,7 @@ Outcome body(const Case &c) {
       if (err) { errors++; buffered_unknown(f); }
       uint64_t endb = n == ~0ULL - blk ? ~0ULL : blk + n - 1;
       err = ext2fs_punch(H.fs, ino[f], NULL, NULL, blk, endb);
-      if (err) { if (!legal_error(err)) return Outcome::fail(std::string("punch-error:") + kind, "unexpected error " + str(err) + at); errors++; count("err:punch:" + str(err)); M[f].fill(blk * bs, std::min<uint64_t>(M[f].size, endb == ~0ULL ? M[f].size : (endb + 1) * bs), -1); break; }
+      if (err) { if (!legal_error(err)) return Outcome::fail(std::string("punch-error:") + kind, "unexpected error " + str(err) + at); errors++; errops.insert("punch"); count("err:punch:" + str(err)); M[f].fill(blk * bs, std::min<uint64_t>(M[f].size, endb == ~0ULL ? M[f].size : (endb + 1) * bs), -1); break; }
       uint64_t hi = endb == ~0ULL ? M[f].size : std::min<uint64_t>(M[f].size, (endb + 1) * bs);
       if (blk * bs < hi) M[f].fill(blk * bs, hi, 0);
       mutations[f]++; punched = true; count("op:punch"); break; }
@@ -183,7 +184,7 @@ Outcome body(const Case &c) {
       err = ext2fs_fallocate(H.fs, flags, ino[f], NULL, ~0ULL, blk, n);
       uint64_t osize = M[f].size, nsize = extend ? std::max<uint64_t>(osize, (blk + n) * bs) : osize;
       bool unspecified = is_extent && (flags & EXT2_FALLOCATE_FORCE_INIT) && !(flags & EXT2_FALLOCATE_ZERO_BLOCKS);
-      if (err) { if (!legal_error(err)) return Outcome::fail(std::string("fallocate-error:") + kind, "unexpected error " + str(err) + " flags " + str(flags) + at); errors++; count("err:fallocate:" + str(err)); unspecified = true; /* like fuse2fs, the caller still extends i_size over what was allocated */ }
+      if (err) { if (!legal_error(err)) return Outcome::fail(std::string("fallocate-error:") + kind, "unexpected error " + str(err) + " flags " + str(flags) + at); errors++; errops.insert("fallocate"); count("err:fallocate:" + str(err)); unspecified = true; /* like fuse2fs, the caller still extends i_size over what was allocated */ }
       struct ext2_inode in; ext2fs_read_inode(H.fs, ino[f], &in);
       if (EXT2_I_SIZE(&in) != osize) return Outcome::fail(std::string("fallocate-size:") + kind, "i_size " + str(EXT2_I_SIZE(&in)) + " model " + str(osize) + " flags " + str(flags) + at);
       if (nsize != osize) { err = ext2fs_inode_size_set(H.fs, &in, nsize); if (!err) err = ext2fs_write_inode(H.fs, ino[f], &in); if (err) return Outcome::fail("fallocate-size-set", "error " + str(err) + at); M[f].size = nsize; }
@@ -219,9 +220,10 @@ Outcome body(const Case &c) {
   std::string out; int rc = run_fsck(img, &out);
   if (rc != 0) {
     // classify by the first problem line
-    std::string first; size_t p = 0; while (p < out.size()) { size_t q = out.find('\n', p); std::string l = out.substr(p, q == std::string::npos ? q : q - p); if (l.rfind("Pass", 0) != 0 && l.rfind("e2fsck", 0) != 0 && !l.empty()) { first = l; break; } if (q == std::string::npos) break; p = q + 1; }
+    std::string first; size_t p = 0; while (p < out.size()) { size_t q = out.find('\n', p); std::string l = out.substr(p, q == std::string::npos ? q : q - p); if (l.rfind("Pass", 0) != 0 && l.rfind("e2fsck", 0) != 0 && !l.empty() && l.find("could be shorter") == std::string::npos && l.find("could be narrower") == std::string::npos) { first = l; break; } if (q == std::string::npos) break; p = q + 1; }
     std::string cls; for (char ch : first) { if (isdigit((unsigned char)ch)) { if (cls.empty() || cls.back() != '#') cls += '#'; } else cls += ch; }
-    return Outcome::fail(std::string(errors ? "fsck-after-error:" : "fsck:") + kind + ":" + cls.substr(0, 60), "e2fsck -fn exit " + str(rc) + (errors ? " (after " + str(errors) + " reported errors)" : "") + "\n" + out);
+    std::string eo; for (auto &x : errops) eo += (eo.empty() ? "" : "+") + x;
+    return Outcome::fail(std::string(errors ? "fsck-after-error:" : "fsck:") + kind + ":" + (errors ? eo + ":" : "") + cls.substr(0, 60), "e2fsck -fn exit " + str(rc) + (errors ? " (after " + str(errors) + " reported errors)" : "") + "\n" + out);
   }
   if (errors) count("case:with-legal-errors");
   Outcome o; o.nontrivial = nontrivial || reopened_after_punch; return o;
